@@ -629,11 +629,17 @@ pub fn check_main(e: &dyn Engine, tier: Tier, seed: u64, workers: usize, runs_ov
     // triage: known findings vs new violations (first occurrence per key)
     let mut known_seen: BTreeMap<String, (u64, String)> = BTreeMap::new();
     let mut new_by_key: BTreeMap<String, (u64, Violation, Value)> = BTreeMap::new();
+    let mut alt_by_key: BTreeMap<String, Vec<(u64, Violation, Value)>> = BTreeMap::new();
     for (run, v, plan) in found {
         if let Some(k) = is_known(&known, e.id(), &v.key) {
             let ent = known_seen.entry(v.key.clone()).or_insert((0, k.what.clone()));
             ent.0 += 1;
         } else {
+            // further runs that showed the same key: candidates for the confirmation, should the first one depend on luck
+            let alts = alt_by_key.entry(v.key.clone()).or_default();
+            if new_by_key.contains_key(&v.key) && alts.len() < 4 {
+                alts.push((run, v.clone(), plan.clone()));
+            }
             new_by_key.entry(v.key.clone()).or_insert((run, v, plan));
         }
     }
@@ -670,6 +676,34 @@ pub fn check_main(e: &dyn Engine, tier: Tier, seed: u64, workers: usize, runs_ov
                 alone = exec_fresh(e.id(), plan, &tmp, Duration::from_secs(60));
             }
         }
+        // still nothing: another run of the batch that showed the same key may reproduce more readily
+        let mut chosen: Option<(u64, Violation, Value)> = None;
+        if !hangish {
+            let hit_now = match &alone {
+                Ok(rep) => has_same(rep, &v.invariant, &v.key).is_some() || rep.violations.iter().any(|o| is_known(&known, e.id(), &o.key).is_none()),
+                Err(_) => false,
+            };
+            if !hit_now {
+                'alts: for (r2, v2, p2) in alt_by_key.get(key).map(|x| x.as_slice()).unwrap_or(&[]) {
+                    for _ in 0..3 {
+                        let a2 = exec_fresh(e.id(), p2, &tmp, Duration::from_secs(60));
+                        let hit = match &a2 {
+                            Ok(rep) => has_same(rep, &v2.invariant, &v2.key).is_some(),
+                            Err(_) => false,
+                        };
+                        if hit {
+                            alone = a2;
+                            chosen = Some((*r2, v2.clone(), p2.clone()));
+                            break 'alts;
+                        }
+                    }
+                }
+            }
+        }
+        let (run, v, plan) = match &chosen {
+            Some((r2, v2, p2)) => (r2, v2, p2),
+            None => (run, v, plan),
+        };
         let mut target: Option<Violation> = None;
         let mut prelude: Vec<Value> = Vec::new();
         match &alone {
